@@ -10,7 +10,8 @@
    Relative to: C03/LIR.v (IR semantics; leaves are variables), C03's template exactness, Base/Word256.v. *)
 From Coq Require Import ZArith Bool List String Arith.
 From Verif Require Import Base.Word256 C03.LIR C03.ArithSpec C03.TieBase C01.ExprCompile C01.ExprCompileProofs C01.ExprX
-  C01.ExprXWord C01.ExprXProofs C01.GenExprTieX.
+  C01.ExprXWord C01.ExprXProofs C01.ExprXBridge C01.GenExprTieX.
+From Verif Require C01.VyCore.
 Import ListNotations.
 Open Scope Z_scope.
 Open Scope list_scope.
@@ -49,6 +50,14 @@ Proof.
     (split; [try reflexivity; destruct t; reflexivity | intros rho; rewrite ?Ea, ?Eb, ?Ec; try reflexivity; destruct t; reflexivity]).
 Qed.
 Print Assumptions expr_x_extends.
+
+(* the meanings of the new operators are those of the C01 reference semantics (operator level; see ExprXBridge.v) *)
+Theorem expr_x_ops_are_vycore :
+  (forall sg x y, sh_l sg x y = VyCore.shift_val true 256 sg x y /\ sh_r x y = VyCore.shift_val false 256 sg x y) /\
+  (forall x y, o2s (arith_spec decimal_t AMul x y) = VyCore.arith VyCore.DMul 168 true x y /\
+               o2s (arith_spec decimal_t ADiv x y) = VyCore.arith VyCore.DDiv 168 true x y).
+Proof. exact ops_are_vycore. Qed.
+Print Assumptions expr_x_ops_are_vycore.
 
 (* non-vacuity: decimals, flags, shifts, a state variable; a value and a revert *)
 Definition dec_t := Build_nty 21 true true.
